@@ -78,15 +78,58 @@ E2E = {
 }
 
 
+# Several actors: the failing command completes AFTER the others have
+# succeeded (errors are collected from concurrent commands).
+MULTI = """role r
+  :ok true
+  :slowbad sleep 0.25; false
+  cleanup %(cleanup_r)s
+end
+role q
+  :ok true
+  :slowbad sleep 0.25; false
+  cleanup %(cleanup_q)s
+end
+cast
+  x plays r
+  y plays r
+  z plays q
+end
+script
+  tempo 60ms
+  scene a entails for x: ok
+  scene b entails for y: ok
+  scene c entails for z: %(zact)s
+  storyline a+b+c
+end
+"""
+E2E_MULTI = {
+    "multi-actor-clean": (dict(), False),
+    "third-actor-fails-after-two-succeeded": (dict(zact="slowbad"), True),
+    "third-actor-tolerated-failure": (dict(zact="slowbad?"), False),
+    "slow-cleanup-of-third-actor-fails": (dict(cleanup_q="sleep 0.25; false"), True),
+}
+for _n, _v in E2E_MULTI.items():
+    E2E[_n] = _v
+
+
 def run_play(binpath, name, early, keepdir=None):
     sub, expected = E2E[name]
+    if name in E2E_MULTI:
+        d = dict(cleanup_r="true", cleanup_q="true", zact="ok")
+        d.update(sub)
+        return _run(binpath, name, early, MULTI % d, expected)
     d = dict(cleanup="true", spot="echo s=7; sleep 30", b="ok", aud="  obs watches x s", interp="")
     d.update(sub)
+    return _run(binpath, name, early, BASE % d, expected)
+
+
+def _run(binpath, name, early, text, expected):
     tmp = tempfile.mkdtemp(prefix="shk-c03-")
     try:
         cfg = os.path.join(tmp, "play.cfg")
         with open(cfg, "w") as f:
-            f.write(BASE % d)
+            f.write(text)
         cmd = [binpath, "-o", "out", "--disable-plots", "-q"]
         if early:
             cmd.append("-S")
@@ -108,7 +151,7 @@ def run_play(binpath, name, early, keepdir=None):
                 except ValueError:
                     foul = "unparsable"
         return {"name": name, "early": early, "exit": rc, "foul_flag": foul, "expected_nonzero": expected,
-                "wall_s": round(time.time() - t0, 2), "output_tail": out[-1500:], "config": BASE % d}
+                "wall_s": round(time.time() - t0, 2), "output_tail": out[-1500:], "config": text}
     finally:
         shutil.rmtree(tmp, ignore_errors=True)
 
